@@ -212,6 +212,18 @@ class IterV(V):
         return 'IterV(%d/%d)' % (self.pos, len(self.items))
 
 
+class StringIOV(V):
+    """io.StringIO: an in-memory text stream; what was written is known as long as only constant text is written"""
+    __slots__ = ('parts', 'pos_at_end')
+
+    def __init__(self, initial=None):
+        self.parts = [initial] if initial is not None else []
+        self.pos_at_end = initial is None
+
+    def __repr__(self):
+        return 'StringIOV(%d parts)' % len(self.parts)
+
+
 class CycleV(V):
     """itertools.cycle over known items: endless; consumed position by position by zip / islice / next"""
     __slots__ = ('items', 'pos')
@@ -1159,7 +1171,7 @@ class Interp:
                     return self.call_function(FuncV(val_), [obj], {}, n)
                 return val_
             raise Raised('AttributeError: %s.%s' % (obj.cls.name, attr), getattr(n, 'lineno', 0))
-        if isinstance(obj, (DictV, SetV)):
+        if isinstance(obj, (DictV, SetV, StringIOV)):
             return BoundV(obj, attr)
         if isinstance(obj, AnnotV):
             if attr == 'value' and isinstance(obj.label, tuple):
@@ -1486,7 +1498,7 @@ class Interp:
             l = TypeV(l.name)
         if isinstance(r, Prim) and r.name in _BUILTIN_TYPE_NAMES:
             r = TypeV(r.name)
-        if isinstance(l, (ListV, DictV, SetV, ObjV, OpaqueV, IterV, PartialV, ExcV)) or isinstance(r, (ListV, DictV, SetV, ObjV, OpaqueV, IterV, PartialV, ExcV)):
+        if isinstance(l, (ListV, DictV, SetV, ObjV, OpaqueV, IterV, PartialV, ExcV, StringIOV)) or isinstance(r, (ListV, DictV, SetV, ObjV, OpaqueV, IterV, PartialV, ExcV, StringIOV)):
             if isinstance(l, (Sym, SymStr, ValueV)) or isinstance(r, (Sym, SymStr, ValueV)):
                 return None
             return l is r
@@ -1745,7 +1757,7 @@ class Interp:
             return True         # an iterator object (generator, zip, map ...) is truthy whether or not anything is left in it
         if isinstance(v, (ListV, TupleV, SetV, DictV)):
             return len(v.items) > 0
-        if isinstance(v, (DocV, CtxV, FuncV, Prim, TypeV, AnnotV, BoundV, ObjV, PartialV, ExcV, IterV, OpaqueV, CycleV, NTClassV)):
+        if isinstance(v, (DocV, CtxV, FuncV, Prim, TypeV, AnnotV, BoundV, ObjV, PartialV, ExcV, IterV, OpaqueV, CycleV, NTClassV, StringIOV)):
             return True
         if isinstance(v, SymStr):
             if v.nonempty is True:
@@ -1800,6 +1812,28 @@ class Interp:
             return DictV([(Const(f_), x_) for f_, x_ in zip(obj.cls.fields, obj.items)])
         if isinstance(obj, NTClassV) and name == '_make' and len(args) == 1:
             return self._make_namedtuple(obj, self.iterate(args[0], node), {}, node)
+        if isinstance(obj, StringIOV):
+            ln = getattr(node, 'lineno', '?')
+            if not obj.pos_at_end:
+                raise Undecided('StringIO used after seek / with initial text (line %s)' % ln)
+            if name == 'write' and len(args) == 1:
+                if isinstance(args[0], Const) and not isinstance(args[0].v, str):
+                    raise Raised('TypeError: string argument expected, got %r' % type(args[0].v).__name__, getattr(node, 'lineno', 0))
+                obj.parts.append(args[0])
+                return Const(len(args[0].v)) if isinstance(args[0], Const) else Sym('len(%s)' % _prov(args[0]), 'int')
+            if name == 'getvalue' and not args:
+                if all(isinstance(x, Const) for x in obj.parts):
+                    return Const(''.join(x.v for x in obj.parts))
+                return SymStr('StringIO(%s)' % '+'.join(_prov(x) for x in obj.parts))
+            if name == 'tell' and not args:
+                if all(isinstance(x, Const) for x in obj.parts):
+                    return Const(sum(len(x.v) for x in obj.parts))
+                return Sym('tell(%s)' % '+'.join(_prov(x) for x in obj.parts), 'int')
+            if name in ('flush', 'close', '__enter__', '__exit__'):
+                return obj if name == '__enter__' else NONE
+            if name == 'writable':
+                return TRUE
+            raise Undecided('StringIO.%s (line %s)' % (name, ln))
         if isinstance(obj, Sym) and obj.typ == 'lock':
             if name == 'acquire':
                 return TRUE
@@ -2659,6 +2693,13 @@ class Interp:
     def p_take(self, a, k, n):
         return ListV(self.iterate(a[1], n), lazy=True)
 
+    def p_StringIO(self, a, k, n):
+        if not getattr(self, 'concrete_context', False) or k or len(a) > 1:
+            return Sym('StringIO()')
+        if a and not (isinstance(a[0], Const) and a[0].v in ('', None)):
+            return StringIOV(a[0])
+        return StringIOV()
+
     def p_islice(self, a, k, n):
         if not getattr(self, 'concrete_context', False):
             return ListV(self.iterate(a[0], n))
@@ -2670,6 +2711,16 @@ class Interp:
             if sl.stop is None:
                 raise Undecided('islice of an endless iterator without a stop')
             return ListV(a[0].take(sl.stop)[sl])
+        src_ = a[0]
+        if isinstance(src_, IterV) or (isinstance(src_, ListV) and getattr(src_, 'lazy', False)):
+            # a one-shot source gives up only what islice reads: the first ``stop`` elements; the rest stays for the next reader
+            avail = src_.items[src_.pos:] if isinstance(src_, IterV) else list(src_.items)
+            used = len(avail) if sl.stop is None else min(len(avail), max(sl.stop, 0))
+            if isinstance(src_, IterV):
+                src_.pos += used
+            else:
+                del src_.items[:used]
+            return ListV(avail[:used][sl])
         items = self.iterate(a[0], n)
         return ListV(items[sl])
 
